@@ -279,10 +279,39 @@ def rule_json(prog, rep):
         rep.finding("C11.JSON", f.name, "locations", "JSON error locations are `%s`, not the line/column of the error's source location" % loc_sym[:160], f.loc())
 
 
+def rule_sametext(prog, rep):
+    """C11.SAMETEXT: every location is a byte range into the text kept in the SourceFile.  The
+    parser that produces those ranges must therefore be run on that very text: in parse_common the
+    string handed to apollo_parser::Parser::new is the same parameter that is stored as
+    SourceFile.source_text (not a stripped or normalised copy - removing a leading BOM shifts every
+    location by three bytes)."""
+    rep.floor("C11.SAMETEXT", 1)
+    f = prog.fn(r"^apollo_compiler::parser::Parser::parse_common$")
+    news = [c for c in f.live_calls() if re.search(r"^apollo_parser::(parser::)?Parser::<'input>::new$", c.name)]
+    stored = None
+    for b in sorted(f.live_blocks()):
+        for st in f.stmts(b):
+            if st[0] == "=" and st[2][0] == "agg" and isinstance(st[2][1], list) and st[2][1][1].endswith("parser::SourceFile") and len(st[2][1]) > 3:
+                names = st[2][1][3]
+                if "source_text" in names:
+                    stored = re.sub(r"[&*]", "", f.sym(st[2][2][names.index("source_text")]))
+    if len(news) != 1 or stored is None:
+        raise Undecided("parse_common: expected one apollo_parser::Parser::new call and one SourceFile { source_text, .. } (found %d / %s)" % (len(news), stored))
+    given = re.sub(r"<String as Deref>::deref\(([^()]*)\)", r"\1", re.sub(r"[&*]", "", f.sym(news[0].args[0])))
+    ok = given == stored
+    rep.obligation(ok)
+    if ok:
+        rep.instance("C11.SAMETEXT", "parse_common: the parser reads the same string (%s) that is stored as SourceFile.source_text" % stored)
+    else:
+        rep.finding("C11.SAMETEXT", f.name, "parsed-text",
+                    "the parser is run on `%s` while the SourceFile keeps `%s`: offsets of nodes, names and syntax errors are relative to a different text than the one they are resolved against (line / column and name spans are shifted)" % (given[:90], stored), news[0].loc())
+
+
 def run(prog, rep):
     rule_loc(prog, rep)
     rule_nameloc(prog, rep)
     rule_units_lines(prog, rep)
     rule_json(prog, rep)
+    rule_sametext(prog, rep)
     rep.assume("ariadne 0.6.0 (pinned by Cargo.lock): Source::from splits lines at LF, CR(LF), VT, FF, NEL, LS, PS; get_byte_line returns (line, line index, byte offset within the line)")
     rep.note("that every AST/schema/executable node carries a location is decided for the CST->AST conversion only; later stages clone these nodes")
